@@ -150,14 +150,29 @@ func hq(x string) string {
 type hclCtx struct {
 	useLocals bool
 	r         *vh.Rand
-	locals    []string // rendered attributes of the locals block
+	locals    []string // rendered attributes of the locals blocks (split over both)
+	first     []string // decoy definitions: first block only
+	second    []string // the definitions that shadow the decoys: second block only
 	n         int
 }
 
 func (c *hclCtx) local(expr string) string {
 	c.n++
 	name := "l" + strconv.Itoa(c.n)
-	c.locals = append(c.locals, name+" = "+expr)
+	if c.r.Intn(3) == 0 {
+		// the same name is defined in an earlier locals block with another value: the later block wins
+		decoy := `"decoy"`
+		switch {
+		case strings.HasPrefix(expr, "["):
+			decoy = `["decoy"]`
+		case strings.HasPrefix(expr, "{"):
+			decoy = `{decoy = "decoy"}`
+		}
+		c.first = append(c.first, name+" = "+decoy)
+		c.second = append(c.second, name+" = "+expr)
+	} else {
+		c.locals = append(c.locals, name+" = "+expr)
+	}
 	return "local." + name
 }
 
@@ -330,16 +345,16 @@ func toHCL(v *s.V, useLocals bool, r *vh.Rand) string {
 		}
 		b.WriteString("}\n")
 	}
-	if len(c.locals) > 0 {
-		// two locals blocks: the second may refer to the first
+	if len(c.locals)+len(c.first) > 0 {
+		// two locals blocks: the second may refer to the first and overrides its names
 		h := len(c.locals) / 2
 		var l strings.Builder
 		l.WriteString("locals {\n")
-		for _, a := range c.locals[:h] {
+		for _, a := range append(append([]string{}, c.locals[:h]...), c.first...) {
 			l.WriteString("  " + a + "\n")
 		}
 		l.WriteString("}\nlocals {\n")
-		for _, a := range c.locals[h:] {
+		for _, a := range append(append([]string{}, c.locals[h:]...), c.second...) {
 			l.WriteString("  " + a + "\n")
 		}
 		l.WriteString("}\n")
